@@ -33,9 +33,14 @@ func init() {
 func parseProblem(b []byte) (problem string, libAcc, refAcc, panicked bool) {
 	var msg *pb.QuoteV4
 	var err error
+	// the library parses a private copy of the input (inputs of the corpus share memory), which is recycled below
+	var in []byte
+	if b != nil {
+		in = append(make([]byte, 0, len(b)), b...)
+	}
 	pv, st := mon.Guard(func() {
 		var a any
-		a, err = abi.QuoteToProto(b)
+		a, err = abi.QuoteToProto(in)
 		if err == nil {
 			msg, _ = a.(*pb.QuoteV4)
 		}
@@ -60,6 +65,11 @@ func parseProblem(b []byte) (problem string, libAcc, refAcc, panicked bool) {
 	want := mon.BuildMessage(rq)
 	if !proto.Equal(msg, want) {
 		return "parsed message differs from the reference decomposition: " + firstDiff(msg, want), true, true, false
+	}
+	// the caller's buffer is the caller's again once QuoteToProto has returned: it is recycled here before the parsed quote is
+	// compared and serialised — the message does not live in it
+	for i := range in {
+		in[i] = 0xFF
 	}
 	var ser []byte
 	pv, st = mon.Guard(func() { ser, err = abi.QuoteToAbiBytes(msg) })
@@ -275,6 +285,45 @@ func c09(x *mon.Ctx) {
 		}
 	})
 	x.Require("message", nm, 0, nm)
+
+	// ---- messages that are NOT well-formed (every structural mutation of a valid message: a sub-message absent, a field or a
+	//      list entry of another length, another number of entries — also lengths that compensate each other within a list):
+	//      parser and serialiser share one validity predicate, so bytes the serialiser produced that the parser accepts parse
+	//      back to the message that was given. A malformed message that serialises to the bytes of some OTHER message is how
+	//      unsigned field contents come to stand behind signed bytes.
+	{
+		valid := validQuotes(x, 1)[0]
+		vm := mon.MessageFor("built", valid)
+		muts := structuralMutations(vm)
+		ser0, _ := abi.QuoteToAbiBytes(vm)
+		n := 0
+		x.Each(len(muts), func(i int) {
+			m := muts[i]
+			if m.Name == "unchanged" {
+				return
+			}
+			var ser []byte
+			var err error
+			pv, _ := mon.Guard(func() { ser, err = abi.QuoteToAbiBytes(m.M) })
+			prob := ""
+			if pv == "" && err == nil { // (a crash is C10's finding)
+				back, perr := abi.QuoteToProto(ser)
+				switch {
+				case perr != nil:
+					// bytes nobody will take for a quote (the two derived size fields are written as given): no claim
+				case !proto.Equal(back.(*pb.QuoteV4), m.M):
+					prob = fmt.Sprintf("QuoteToAbiBytes accepted a message that does not survive serialise-then-parse (its bytes equal the unmutated quote's: %v): %s", bytes.Equal(ser, ser0), firstDiff(back.(*pb.QuoteV4), m.M))
+				}
+			}
+			if prob != "" {
+				wire, _ := proto.Marshal(m.M)
+				x.Violation("malformed-message", m.Name, prob, "none", map[string]any{"mutation": m.Name, "wire": wire})
+			}
+			x.Note("malformed-message", m.Name, err == nil && pv == "", false, prob == "")
+			n++
+		})
+		x.Require("malformed-message", 0, 100, 100)
+	}
 }
 
 // rehome moves every byte field of the message into ONE buffer, as consecutive windows (in field order or
